@@ -42,8 +42,11 @@ SIZES = {1: 1, 2: 2, 3: 4, 4: 1, 5: 2, 6: 4, 7: 4, 8: 2}
 NAMES = {k: v[0] for k, v in LOG_TYPES.items()}
 
 
-def gen_cfg(rng, dev, ci):
+def gen_cfg(rng, dev, ci, high=False):
     logs = dev['log']
+    if high and len(logs) > 250:
+        # variables around and beyond the 8-bit index boundary
+        logs = logs[250:262] + logs[-3:] + logs[:2]
     target = rng.choice([0, 1, 3, 8, 24, 25, 26, 26, 27, 28, 14])
     vars_ = []
     size = 0
@@ -87,10 +90,12 @@ def gen(seed):
     knobs = common.sched_knobs(rng)
     knobs['needs_resending'] = rng.random() < 0.3
     knobs['lat'] = rng.choice([(0.0005, 0.003), (0.0, 0.0), (0.002, 0.01)])
-    dev = wgen.gen_device(rng, n_log=rng.choice([1, 3, 8, 20, 40]), n_param=1, version=rng.choice([10, 10, 10, 5, 3]),
-                          mems=[])
+    version = rng.choice([10, 10, 10, 5, 3])
+    big = version >= 4 and rng.random() < 0.08
+    dev = wgen.gen_device(rng, n_log=rng.choice([254, 255, 256, 257, 300, 520]) if big else rng.choice([1, 3, 8, 20, 40]),
+                          n_param=1, version=version, mems=[])
     ncfg = rng.choice([1, 2, 3, 6])
-    cfgs = [gen_cfg(rng, dev, ci) for ci in range(ncfg)]
+    cfgs = [gen_cfg(rng, dev, ci, high=big) for ci in range(ncfg)]
     ops = []
     for _ in range(rng.choice([2, 4, 8, 14])):
         ci = rng.randrange(ncfg)
@@ -126,6 +131,14 @@ def directed(tier):
                           'cfgs': [{'name': 'c', 'period': 10, 'vars': vars_, 'kind': 'ok'}],
                           'ops': [['add', 0], ['start', 0], ['sleep', 0.1], ['stop', 0], ['delete', 0]],
                           'knobs': {'line_mean': 0, 'p_stall': 0.0, 'needs_resending': False, 'lat': (0.001, 0.001)}})
+    biglogs = [['b', 'v%d' % i, 2] for i in range(300)]
+    bigdev = dict(dev, log=biglogs)
+    for idxs in ([254, 255, 256, 257], [299], [0, 255, 1, 256, 2, 299], list(range(250, 263))):
+        n += 1
+        plans.append({'seed': 960000 + n, 'scenario': 'directed-high-index', 'device': bigdev,
+                      'cfgs': [{'name': 'c', 'period': 10, 'vars': [['toc', 'b.v%d' % i, None] for i in idxs], 'kind': 'ok'}],
+                      'ops': [['add', 0], ['start', 0], ['sleep', 0.1], ['stop', 0], ['delete', 0]],
+                      'knobs': {'line_mean': 0, 'p_stall': 0.0, 'needs_resending': False, 'lat': (0.001, 0.001)}})
     for period in (0, 5, 9, 10, 20, 2540, 2550, 2560, 5000):
         n += 1
         plans.append({'seed': 960000 + n, 'scenario': 'directed-period-%d' % period, 'device': dev,
@@ -270,7 +283,7 @@ def execute(ctx):
         settle(0.2)
 
     verdict = sim.run(scenario)
-    if verdict[0] in ('deadlock', 'timeout'):
+    if verdict[0] in ('deadlock', 'timeout', 'livelock'):
         from simkit.harness import hang_signature
         sg, msg = hang_signature(verdict)
         ctx.violation('6h', sg, msg, verdict[1])
